@@ -16,7 +16,7 @@ import zlib
 
 from pbt import exprs as X
 from pbt import ieee
-from pbt.grammar import ENC_UNIT, SCOPED, buildnone, discards, is_expr, fixed_size
+from pbt.grammar import ENC_UNIT, SCOPED, buildnone, discards, enum_table, is_expr, fixed_size
 
 NATIVE_LITTLE = sys.byteorder == "little"
 
@@ -272,7 +272,7 @@ def rp(spec, st, sc):
     if k == "enum":
         v = rp(spec[1], st, sc)
         found = v
-        for label, val in spec[2]:
+        for label, val in enum_table(spec):
             if val == v:
                 found = label       # (aliases: the last label declared for a value is the one reported)
         return found
@@ -332,6 +332,8 @@ def rp(spec, st, sc):
         if not v < spec[2]:
             raise Reject("validation")
         return v
+    if k == "bittail":
+        return st.read_all()
     if k in ("bits", "bit", "nibble", "octet"):
         w, signed, swapped = _bitsparams(spec, sc)
         if w <= 0:
@@ -800,7 +802,7 @@ def rb(spec, v, sc):
         elif isinstance(v, bool):
             iv = v
         else:
-            for label, val in spec[2]:
+            for label, val in enum_table(spec):
                 if isinstance(v, str) and label == v:
                     iv = val
                     break
@@ -885,6 +887,10 @@ def rb(spec, v, sc):
                 raise Reject("validation")
             return rb(spec[1], v, sc)[0], v
         return rb(spec[1], (v ^ spec[2]) if k == "exprsym" else (v - spec[2]), sc)[0], v
+    if k == "bittail":
+        if not isinstance(v, (bytes, bytearray)) or any(b > 1 for b in v):
+            raise ForeignError("bit-level GreedyBytes built from something that is not a string of 0/1 bytes")
+        return bytes(v), bytes(v)
     if k in ("bits", "bit", "nibble", "octet"):
         w, signed, swapped = _bitsparams(spec, sc)
         if not isinstance(v, int) or isinstance(v, bool):
